@@ -79,6 +79,7 @@ func check(c Case) vk.Verdict {
 	key := base64.StdEncoding.EncodeToString(c.Key)
 	app := fiber.New()
 	seen := map[string]string{}
+	seenAll := map[string][]string{}
 	if c.SetPanic {
 		app.Use(recoverer.New())
 	}
@@ -101,6 +102,19 @@ func check(c Case) vk.Verdict {
 		}
 		for _, ck := range c.Cookies {
 			seen[ck.Name] = strings.Clone(ctx.Cookies(ck.Name))
+		}
+		// everything else that reads request cookies: the complete list and the binder
+		for k := range seenAll {
+			delete(seenAll, k)
+		}
+		ctx.Request().Header.VisitAllCookie(func(k, v []byte) { seenAll[string(k)] = append(seenAll[string(k)], string(v)) })
+		bound := map[string][]string{}
+		if err := ctx.Bind().Cookie(&bound); err == nil {
+			for k, vs := range bound {
+				for _, v := range vs {
+					seenAll[k] = append(seenAll[k], strings.Clone(v))
+				}
+			}
 		}
 		return nil
 	})
@@ -235,6 +249,20 @@ func check(c Case) vk.Verdict {
 		for _, ext := range []string{"A", "AAAA", "=", "QUFB"} {
 			if m := try(ck.Name, orig, w+ext, "extension "+ext); m != "" {
 				return vk.Failf("%s", m)
+			}
+		}
+	}
+	// 4. a name sent twice: the issued ciphertext next to text the server never issued, in both orders
+	for _, ck := range c.Cookies {
+		if excepted(ck.Name, c.Except) || len(ck.Value) == 0 || strings.ContainsAny(ck.Name, "=; ") {
+			continue
+		}
+		for _, hdr := range []string{ck.Name + "=" + wire[ck.Name] + "; " + ck.Name + "=evil-raw-text", ck.Name + "=evil-raw-text; " + ck.Name + "=" + wire[ck.Name], ck.Name + "=x; " + ck.Name + "=admin"} {
+			vk.Do(app, "GET", "/get", "Cookie", hdr)
+			for _, v := range append([]string{seen[ck.Name]}, seenAll[ck.Name]...) {
+				if v != "" && v != string(ck.Value) {
+					return vk.Failf("request cookie header %q: the handler can read %q for cookie %q (through Cookies(), the list of all cookies or the binder); want only \"\" or the issued value %q", hdr, v, ck.Name, ck.Value)
+				}
 			}
 		}
 	}
